@@ -1,0 +1,12 @@
+//go:build verif
+
+package keeper
+
+import v1 "mods.irisnet.org/modules/token/types/v1"
+
+// VerifSwapRegistry exposes the keeper's fee-token swap registry to the verification
+// harness. The map is shared by all copies of the keeper, so entries written here are seen
+// by the message server the application wired. Compiled only with the "verif" build tag.
+func (k Keeper) VerifSwapRegistry() v1.SwapRegistry {
+	return k.registry
+}
